@@ -732,7 +732,9 @@ class PorChooser:
     a thread sleeps at a point when the schedules starting with it there are already covered by an explored sibling and
     everything executed since is independent of its pending segment"""
 
-    def __init__(self, frames):
+    def __init__(self, frames, forced=(), root_sleep=None):
+        self.root_sleep = dict(root_sleep or {})   # sleep set at the first free scheduling point (inherited from the split)
+        self.forced = list(forced)    # thread names imposed at the first scheduling points (a subtree of the enumeration)
         self.frames = frames          # shared with the enumeration loop; frames[:len(prefix)] are replayed
         self.replay = len(frames)
         self.d = 0
@@ -770,7 +772,13 @@ class PorChooser:
                         self.pairs.append((sg[0], seg[0], indep(sg[0], seg[0])))
                     if ok:
                         sleep[nm] = sg
+            if self.d == len(self.forced) and self.forced:
+                sleep = dict(self.root_sleep)
             free = [nm for nm in names if nm not in sleep]
+            if self.d < len(self.forced):
+                # the root of a subtree: no sleep set is inherited (sound: only less pruning), the choice is imposed
+                sleep = {}
+                free = [self.forced[self.d]] if self.forced[self.d] in names else []
             fr = {"runnable": names, "sleep": sleep, "done": {}, "chosen": free[0] if free else None, "seg": None}
             self.frames.append(fr)
             if not free:
